@@ -1,5 +1,5 @@
 (* C16 -- the x86-64 decoder is total and exact on compiler-emitted code.   (PARTIAL) *)
-From Goom Require Import Base.MachineInt Gen.X86Table Model.X86Len Model.X86Abs Proofs.X86LenProofs Proofs.X86AbsProofs Tie.X86TableTie.
+From Goom Require Import Base.MachineInt Gen.X86Table Model.X86Len Model.X86Abs Proofs.X86LenProofs Proofs.X86AbsProofs Tie.X86TableTie Tie.X86ArmsTie.
 From Coq Require Import List ZArith Bool Lia FMapPositive.
 Import ListNotations.
 Open Scope Z_scope.
@@ -43,6 +43,15 @@ Print Assumptions C16_bounds_for_any_program.
 Theorem C16_program_is_source : forall i, x86_tbl i = if i <? 0 then None else nth_error x86_decoder (Z.to_nat i).
 Proof. exact x86_tbl_is_source. Qed.
 Print Assumptions C16_program_is_source.
+
+(* the model's classification of the argument operations is the shape of decode1's case clauses, regenerated from
+   decode.go: which clauses require / exclude a memory operand, which record the RIP-relative displacement
+   (inst.PCRel = displen, inst.PCRelOff = dispoff under mem.Base == RIP), which the rel8/16/32 immediate
+   (inst.PCRelOff = immcpos, inst.PCRel = 1/2/4), how many inst.Args slots each fills, and that there is no clause the
+   model does not know *)
+Theorem C16_model_classification_is_source : arms_check x86_arms = true.
+Proof. exact x86_arms_ok. Qed.
+Print Assumptions C16_model_classification_is_source.
 
 (* non-vacuity: CMPQ $0, 0x04030201(IP) (field of width 4 at offset 3 of 8), JBE .+12 (width 1 at offset 1),
    CALL rel32, a lone operand-size prefix, MOVSD xmm0, [rip+16] *)
